@@ -64,6 +64,34 @@ type c03Oracle struct {
 	lens     []int // block lengths (C12: the batches each unwrapper saw)
 	out      [][]RawType
 	keepOut  bool
+	held     []c03Held // every block received, with a checksum taken at reception
+}
+
+// c03Held remembers a block: data handed to the consumer must not change afterwards (the
+// processors read it long after the reader has moved on).
+type c03Held struct {
+	b   *dataBlock
+	sum uint64
+}
+
+func c03Sum(b *dataBlock) uint64 {
+	h := uint64(14695981039346656037)
+	for i := range b.segments {
+		for _, v := range b.segments[i].rawData {
+			h = (h ^ uint64(v)) * 1099511628211
+		}
+		h = (h ^ uint64(len(b.segments[i].rawData))) * 1099511628211
+	}
+	return h
+}
+
+// verifyHeld: no block has changed since it was received.
+func (o *c03Oracle) verifyHeld() {
+	for k, h := range o.held {
+		if c03Sum(h.b) != h.sum {
+			o.fail("content", "content:block-changed-after-emission", "block %d of the run (of %d) no longer holds the samples it held when the consumer received it: its buffer was written again", k, len(o.held))
+		}
+	}
 }
 
 func newC03Oracle(w *abacoSimWorld, rule string) *c03Oracle {
@@ -260,6 +288,7 @@ func (o *c03Oracle) onBlock(b *dataBlock) {
 	if abacoSimDebug {
 		fmt.Printf("DBG %v block %d len %d first %d dropped %d emittedBefore %d cands %v queues %v\n", time.Since(w.t0), o.blocks, L, first, drop, o.emitted, o.cands, o.queueLens())
 	}
+	o.held = append(o.held, c03Held{b, c03Sum(b)})
 	o.lens = append(o.lens, L)
 	o.emitted += L
 	o.blocks++
@@ -348,6 +377,7 @@ func (o *c03Oracle) queueLens() []int {
 // finalChecks runs after the stream ended and everything had a second to come out.
 func (o *c03Oracle) finalChecks() (g0 int) {
 	w := o.w
+	o.verifyHeld()
 	cs := o.common()
 	if o.blocks == 0 || len(cs) == 0 {
 		o.fail("liveness", "liveness:nothing-emitted", "no block was emitted although %d packets reached the source", w.nDelivered)
@@ -393,8 +423,56 @@ func (o *c03Oracle) finalChecks() (g0 int) {
 	return g0
 }
 
+// truncatedChecks are the end-of-run checks of a run that the client stopped in mid-stream:
+// what was emitted is a prefix of the reference (checked block by block), nothing needs to
+// have come out yet, and the dropped-frame total must be explainable: at least the fillers
+// emitted, at most those plus the fillers that can still sit in the queues (plus the start-up
+// prefix, as in finalChecks). Returns a consistent first packet index (-1: nothing emitted).
+func (o *c03Oracle) truncatedChecks() int {
+	w := o.w
+	o.verifyHeld()
+	if o.blocks == 0 {
+		return -1
+	}
+	cs := o.common()
+	lo, hi := o.emitted/w.fpp, (o.emitted+w.fpp-1)/w.fpp
+	ok := false
+	var tried []string
+	for _, c := range cs {
+		fillLo, fillHi, slack, later := 0, 0, 0, 0
+		for _, g := range w.groups {
+			for idx := c; idx < c+hi && idx < w.npackets; idx++ {
+				if g.fate[idx] != abacoSimDelivered {
+					fillHi += w.fpp
+					if idx < c+lo {
+						fillLo += w.fpp
+					}
+				}
+			}
+			for idx := c + hi; idx < g.nextIdx; idx++ {
+				if g.fate[idx] != abacoSimDelivered {
+					later += w.fpp
+				}
+			}
+			for idx := g.lastSampled + 1; idx < c; idx++ {
+				if g.fate[idx] != abacoSimDelivered {
+					slack += w.fpp
+				}
+			}
+		}
+		tried = append(tried, fmt.Sprintf("start %d: %d..%d emitted, +%d start-up, +%d still queued", c, fillLo, fillHi, slack, later))
+		if o.dropped >= fillLo && o.dropped <= fillHi+slack+later {
+			ok = true
+		}
+	}
+	if !ok {
+		o.fail("dropped-count", "dropped:inconsistent-at-stop", "the run was stopped in mid-stream; the blocks report %d dropped frames in total, which fits no reading of the filler frames (%v)", o.dropped, tried)
+	}
+	return cs[len(cs)-1]
+}
+
 // abacoSimRun drives one run: start, pump until the stream has ended and one more second
-// has passed, final checks.
+// has passed (or until the drawn moment of an early Stop), final checks.
 func abacoSimRun(w *abacoSimWorld, o *c03Oracle) (g0 int) {
 	limit := time.Duration(w.npackets)*w.period + 12*time.Second + 40000*w.delta
 	began := time.Now()
@@ -407,6 +485,10 @@ func abacoSimRun(w *abacoSimWorld, o *c03Oracle) (g0 int) {
 		if w.allArrived() && time.Since(w.lastDeliv) > settle+100*time.Millisecond {
 			return true
 		}
+		if w.stopEarly && !w.stopInRead && w.minNextIdx() >= w.stopAt {
+			simrt.Hit("stop-between-ticks-in-mid-stream")
+			return true
+		}
 		if time.Since(began) > limit {
 			return true
 		}
@@ -415,6 +497,10 @@ func abacoSimRun(w *abacoSimWorld, o *c03Oracle) (g0 int) {
 	if selfEnded {
 		o.fail("liveness", "liveness:source-ended-by-itself", "the source closed its block channel %v after the start although packets kept arriving (at most %v apart); %d blocks, %d frames emitted", time.Since(began), 7*abacoSimTick+900*time.Millisecond, o.blocks, o.emitted)
 	}
+	if w.stopEarly {
+		o.checkLive("at the early stop: ")
+		return o.truncatedChecks()
+	}
 	if !w.allArrived() {
 		o.fail("liveness", "liveness:reader-stopped-reading", "the reader did not read all packets within %v: next packet indices %d of %d", limit, w.minNextIdx(), w.npackets)
 	}
@@ -422,36 +508,65 @@ func abacoSimRun(w *abacoSimWorld, o *c03Oracle) (g0 int) {
 	return o.finalChecks()
 }
 
-func c03Body(env *simrt.Env) {
-	w := newAbacoSimWorld(env, "C03")
-	if w.faulted {
-		w.drawFaults(true)
+// c03DrawStop draws how the client ends the run: after the stream (full end-of-run checks)
+// or in mid-stream, from a task that runs while the reader is inside a tick or between ticks.
+func c03DrawStop(w *abacoSimWorld) {
+	if simrt.Draw(3) != 2 {
+		return
 	}
-	env.Op("%s", w.describe())
-	mixed16, mixed32 := false, false
+	lo := 2
 	for _, g := range w.groups {
-		mixed16 = mixed16 || !g.wide
-		mixed32 = mixed32 || g.wide
-	}
-	if mixed16 && mixed32 {
-		simrt.Hit("int16-and-int32-groups")
-	}
-	w.startSource(AbacoUnwrapOptions{})
-	o := newC03Oracle(w, "C03")
-	g0 := abacoSimRun(w, o)
-	gap := 0
-	for _, g := range w.groups {
-		for idx := g0; idx < w.npackets && g.fate[idx] != abacoSimDelivered; idx++ {
-			gap++
+		if g.kSample+2 > lo {
+			lo = g.kSample + 2
 		}
 	}
-	if gap > 0 {
-		simrt.Hit("startup-gap-filled")
+	if lo >= w.npackets {
+		return
 	}
-	if !w.faulted && w.nLost > 0 {
-		simrt.Fail("harness.nominal", "harness:loss-in-nominal", "packets were lost in a nominal run")
+	w.stopEarly = true
+	w.stopAt = lo + simrt.Draw(w.npackets-lo)
+	w.stopInRead = simrt.Draw(2) == 1
+}
+
+func c03Body(env *simrt.Env) {
+	w := newAbacoSimWorld(env, "C03")
+	for {
+		if w.faulted {
+			w.drawFaults(true)
+		}
+		c03DrawStop(w)
+		env.Op("%s", w.describe())
+		mixed16, mixed32 := false, false
+		for _, g := range w.groups {
+			mixed16 = mixed16 || !g.wide
+			mixed32 = mixed32 || g.wide
+		}
+		if mixed16 && mixed32 {
+			simrt.Hit("int16-and-int32-groups")
+		}
+		w.startSource(AbacoUnwrapOptions{})
+		o := newC03Oracle(w, "C03")
+		g0 := abacoSimRun(w, o)
+		gap := 0
+		for _, g := range w.groups {
+			for idx := g0; g0 >= 0 && idx < w.npackets && g.fate[idx] != abacoSimDelivered && g.fate[idx] != abacoSimNone; idx++ {
+				gap++
+			}
+		}
+		if gap > 0 {
+			simrt.Hit("startup-gap-filled")
+		}
+		if !w.faulted && w.nLost > 0 {
+			simrt.Fail("harness.nominal", "harness:loss-in-nominal", "packets were lost in a nominal run")
+		}
+		env.Sample(map[string]interface{}{"groups": len(w.groups), "channels": w.nchan, "frames_per_packet": w.fpp, "packets_per_group": w.npackets,
+			"period_ms": int(w.period / time.Millisecond), "lost": w.nLost, "delivered": w.nDelivered, "blocks": o.blocks, "frames_out": o.emitted,
+			"first_emitted_packet": g0, "dropped_reported": o.dropped, "read_ticks": w.ticksSeen, "run_of_history": fmt.Sprintf("%d/%d", w.runNo+1, w.histLen), "stopped_in_mid_stream": w.stopEarly})
+		if w.runNo+1 >= w.histLen {
+			return
+		}
+		// the client reconfigures and starts the same source object again, at once or after a while
+		time.Sleep(time.Duration(simrt.Draw(4)) * 70 * time.Millisecond)
+		w = w.nextRun()
 	}
-	env.Sample(map[string]interface{}{"groups": len(w.groups), "channels": w.nchan, "frames_per_packet": w.fpp, "packets_per_group": w.npackets,
-		"period_ms": int(w.period / time.Millisecond), "lost": w.nLost, "delivered": w.nDelivered, "blocks": o.blocks, "frames_out": o.emitted,
-		"first_emitted_packet": g0, "dropped_reported": o.dropped, "read_ticks": w.ticksSeen})
 }
